@@ -520,8 +520,10 @@ impl<R: Read + Seek> Seek for CompressionLayerReader<'_, R> {
                         // Get the position and do nothing
                         if pos == 0 {
                             Ok(self.underlayer_pos)
-                        } else if let Ok(pos_i64) = i64::try_from(self.underlayer_pos) {
-                            let new_pos = pos + pos_i64;
+                        } else if let Some(new_pos) = i64::try_from(self.underlayer_pos)
+                            .ok()
+                            .and_then(|pos_i64| pos.checked_add(pos_i64))
+                        {
                             if new_pos >= 0 {
                                 self.seek(SeekFrom::Start(u64::try_from(new_pos).map_err(
                                     |_| {
